@@ -243,6 +243,8 @@ func runC09(c *core.Ctx) {
 	n := ruleUncheckedAssertions(c, "C09.no-crash", "meta/signature", map[string]string{})
 	c.Pass("C09.no-crash", "unchecked-assertions", token.NoPos, fmt.Sprintf("%d unchecked assertions on parser nodes, all on scanner terminals", n))
 	ruleParserShapesInto(c, "C09.no-crash")
+	ruleIndexResultChecked(c, "C09.no-crash", "meta/signature")
+	ruleNoFabricatedOperands(c, "C09.parse")
 }
 
 func isSubsequence(a, b string) bool {
